@@ -1242,6 +1242,7 @@ func runC06(r *Rng, tier string, n int) {
 	defer z.CleanupWorkDir()
 	unitCases(r)
 	probes()
+	keywordCaseSweep(r)
 	shapeStream()
 	semanticStream(r, 260*mult, 6)
 	generateStream(r, 120*mult)
